@@ -266,6 +266,8 @@ def main_check(mod, tier: str, seed: int, replay: str | None = None) -> int:
     outcomes = {}
     for r in results:
         outcomes[r["outcome"]] = outcomes.get(r["outcome"], 0) + 1
+        for o in r.get("outcomes", []) or []:  # finer-grained observed outcomes (vacuity check: many executions, one outcome = nothing collided)
+            outcomes[o] = outcomes.get(o, 0) + 1
 
     new_sigs, known_hit = [], []
     for sig in sorted(by_sig, key=lambda s: by_sig[s][0][0]):
@@ -359,7 +361,10 @@ def main_check(mod, tier: str, seed: int, replay: str | None = None) -> int:
         "wall_s": round(time.time() - t0, 2),
         "violations": len(new_sigs),
     }
-    write_json(os.path.join(VERIF, "evidence", pid + ".json"), ev)
+    # evidence of record is only ever written for /repo itself; runs against a scratch worktree (VERIF_REPO, used to try
+    # seeded changes) leave /verif/evidence untouched
+    ev_dir = os.path.join(VERIF, "evidence") if os.path.realpath(REPO) == "/repo" else os.path.join(VERIF, "replays", "evidence-scratch-repo")
+    write_json(os.path.join(ev_dir, pid + ".json"), ev)
 
     # ---- report --------------------------------------------------------------------------------
     print(f"[{pid}] evaluations={cov['evaluations']} cases={total} distinct_nontrivial={cov['distinct_nontrivial']} "
